@@ -237,6 +237,11 @@ def cmds(job, rng, home):
             head = rng.choice(unfinished) if unfinished else None
             cl.append((max(1, n_iters - rng.randint(0, 3)), "force_trigger_tasks",
                        {"tasks": family_ids(head, 1.0), "flow": []}))
+        elif k == "trigger_reload":
+            # a trigger and a reload in the same batch of commands
+            i1 = rng.randint(1, max(1, n_iters))
+            cl.append((i1, "force_trigger_tasks", {"tasks": some_ids(rng.randint(1, 2)), "flow": rng.choice([[], [], ["none"]])}))
+            cl.append((i1, "reload_workflow", {}))
         elif k == "remove_reload":
             # a pooled task is removed (its satisfied prerequisites forgotten), respawned by another parent, then
             # the workflow is reloaded: prerequisites whose upstream output is on record must stay as they are
